@@ -186,6 +186,21 @@ fn main()
 					Op { all: false, addr: 0, nf: true, data: vec![7; 481] }, Op { all: false, addr: 0, nf: true, data: vec![7; 4] }] };
 				emit(&c, &mut out);
 			}
+			// ---- audit: payload sizes / alignments outside the PAYLOADS list (12/4, 30/5, 100/25, 128/64, 300/150, 476/119),
+			//      a vector that already holds 700 bytes, address bounds measured from the ALIGNED length
+			{
+				let seq = |n: usize| -> Vec<u8> { (0..n).map(|k| (k % 251) as u8 + 1).collect() };
+				let op = |all: bool, addr: u32, nf: bool, n: usize| Op { all, addr, nf, data: seq(n) };
+				let cases = [
+					Case { slice: false, size: 700, fam: None, bs: 12, align: 4, ops: vec![op(true, 0xFFFF_FFF4, false, 13), op(true, 0xFFFF_FFF0, false, 13), op(true, 0xFFFF_FFF1, true, 13)] },
+					Case { slice: true, size: 4096, fam: Some(0xE48BFF56), bs: 100, align: 25, ops: vec![op(true, 0x1000_0000, true, 130), op(false, 0, false, 75), op(false, 0, false, 76), op(false, 0, false, 125)] },
+					Case { slice: true, size: 1536, fam: Some(0), bs: 30, align: 5, ops: vec![op(false, 0, false, 30), op(true, 0xFFFF_FFE2, false, 30), op(true, 0xFFFF_FFE3, false, 30), op(true, 0xFFFF_FFDD, false, 31)] },
+					Case { slice: false, size: 5, fam: Some(0xFFFF_FFFF), bs: 128, align: 64, ops: vec![op(true, 0, false, 200), op(false, 0x100, true, 64), op(false, 0x200, false, 65), op(false, 0x300, false, 128)] },
+					Case { slice: true, size: 1535, fam: None, bs: 300, align: 150, ops: vec![op(true, 0x2000_0000, false, 451), op(true, 0x2000_0400, false, 1)] },
+					Case { slice: false, size: 0, fam: None, bs: 476, align: 119, ops: vec![op(true, 0xFFFF_FC48, false, 952), op(true, 0xFFFF_FC47, false, 834), op(true, 0xFFFF_FC49, false, 834)] },
+				];
+				for c in cases.iter() { emit(c, &mut out); }
+			}
 			// ---- deterministic grid: every configuration x one call x every length x every address x both calls;
 			//      destination: vector, and for slices every capacity class (cycled through the family ids)
 			let mut k = 0usize;
